@@ -269,8 +269,32 @@ CHECKS["C02"] = dict(
     assumptions=["interleavings are explored through the named pause points and natural scheduling, not exhaustively",
                  "when the proxy itself closes the client connection (proxy Stop) no further reply is owed"],
     parts=[
-        dict(name="directed", test="TestDirected", kind="rapid", checks={"quick": 40, "thorough": 1500}, shards=16, timeout={"quick": 900, "thorough": 3400}, shrinktime="60s", gomaxprocs=4, crash_is_violation=True),
+        dict(name="directed", test="TestDirected", kind="rapid", checks={"quick": 150, "thorough": 3000}, shards=16, timeout={"quick": 900, "thorough": 3400}, shrinktime="60s", gomaxprocs=4, crash_is_violation=True),
         dict(name="directed-grid", test="TestDirectedGrid", kind="plain", shards=16, timeout={"quick": 900, "thorough": 1800}, gomaxprocs=4, crash_is_violation=True, records=["directed", "directed-grid"]),
-        dict(name="stress", test="TestStress", kind="rapid", checks={"quick": 3, "thorough": 60}, shards=8, timeout={"quick": 900, "thorough": 3400}, shrinktime="30s", crash_is_violation=True),
+        dict(name="stress", test="TestStress", kind="rapid", checks={"quick": 6, "thorough": 100}, shards=8, timeout={"quick": 900, "thorough": 3400}, shrinktime="30s", crash_is_violation=True),
+    ],
+)
+
+CHECKS["C04"] = dict(
+    pkg="c04", level="exploration",
+    engine="sim: simulated Redis Cluster with per-key migration state; real proxy through proc.New",
+    rule=("part migration: rapid-generated histories (3..40 steps) over a simulated cluster of 2..4 masters (0..1 replica each; every node is "
+          "a seed host): client commands on keys of three hot slots ({a},{b},{c}; SET/APPEND/INCRBY/LPUSH with unique payloads, GET, "
+          "STRLEN, LRANGE, MGET/MSET/DEL/EXISTS over several slots) sent synchronously or as pipelined bursts of 2..25 (each key at most "
+          "once per burst) with 0/20/100 concurrent background requests on a second connection (to interleave with ASKING+command "
+          "pairs), migration steps (set migrating/importing, move 1..3 keys, finalise, abort) and fail-overs (master dies, replica "
+          "promoted, failed master stays listed). Oracle after every reply: no reply (also inside arrays) starts with MOVED/ASK; the "
+          "reply equals the reference keyspace's (split commands as per-key commands); an error is accepted only inside the recovery "
+          "window of a fail-over (until two slot refreshes succeeded, <= 10 s), after which the model adopts the cluster's data for "
+          "that key; at the end every migration is finalised and the union of all nodes' data equals the reference data with each key "
+          "on exactly one node (unique payloads make a lost or duplicated execution visible). part overtake: directed scenario of the "
+          "known finding (see known_findings.json). Non-trivial: a node issued MOVED/ASK for a client command while a slot was "
+          "half-migrated, or a fail-over happened. Distinct by canonical JSON of the history."),
+    assumptions=["the periodic refresh runs every 50 ms in the harness (2 min in production); recovery after a fail-over is bounded by it",
+                 "each pipelined burst touches a key at most once: same-key pipelines across a table refresh are the recorded known finding and are excluded by construction (decided separately by the overtake part)",
+                 "fail-overs happen between client operations (replication in the simulator is synchronous)"],
+    parts=[
+        dict(name="migration", test="TestMigration", kind="rapid", checks={"quick": 120, "thorough": 6000}, shards=16, timeout={"quick": 900, "thorough": 3400}, shrinktime="90s", gomaxprocs=4, crash_is_violation=True),
+        dict(name="overtake", test="TestKnownOvertake", kind="plain", timeout=600),
     ],
 )
